@@ -56,11 +56,14 @@ def _long():
 STR_PLAIN = 'abcdefghijklmnopqrstuvwxyzABC0123456789_-.'
 STR_SPECIAL = [
     ' ', '  ', '(', ')', ';', '|', '\n', '""', '\t', '\\', 'é', '∀', '\\x41',
-    '\\u{1F600}', 'a', 'b c', '-', ' ; ', '(x)', '""""', '\r\n'
+    '\\u{1F600}', 'a', 'b c', '-', ' ; ', '(x)', '""""', '\r\n',
+    # content that looks like layout: comment lines, empty lines, indentation, command breaks
+    '\n; c\n\n', '\n;\n\n\n', '\n\n', '\n  (', ')\n(', '; c\n', ' \n '
 ]
 Q_SPECIAL = [
     ' ', '  ', '(', ')', ';', '"', '\n', '\t', 'é', 'a', 'b c', '-', ' ; ',
-    '(x)', '""', '"a"', '\r\n'
+    '(x)', '""', '"a"', '\r\n',
+    '\n; c\n\n', '\n;\n\n\n', '\n\n', '\n  (', ')\n(', '; c\n', ' \n '
 ]
 
 
